@@ -73,12 +73,30 @@ Record venv := mkVE {
   ve_generators : list bstr;                                (* addresses of the generator list in force, in slot order *)
   ve_node_mhp : N;                                          (* the node's own maxHeightPrevoted *)
   ve_contradicting : bool;                                  (* IsHeaderContradictingChain *)
-  ve_agg_ok : bool;                                         (* verifyAggregateCommit = nil *)
+  (* verifyAggregateCommit: the node's BFT heights, the height of the next BFT-parameter change after the last certified
+     height (NextHeightBFTParameters(maxHeightCertified+1)), and the two external verdicts it needs *)
+  ve_mh_precommit : N; ve_mh_cert : N; ve_next_params : option N;
+  ve_agg_lookup_ok : bool;                                  (* header and BFT parameters at the commit's height are available *)
+  ve_agg_bls_ok : bool;                                     (* weighted BLS aggregate over the certificate of the block at that
+                                                               height verifies (keys/weights/threshold of that height, this chain) *)
   ve_sig_ok : bool }.                                       (* signature over tag||chainID||signing bytes verifies under the
                                                                generator key registered for the generator assigned to the slot *)
 
 (* validator.BlockSlot.GetSlotNumber: elapsed := unixTime - genesisTimestamp (uint32 wrap); floor(elapsed / blockTime) *)
 Definition slot_of (e : venv) (ts : N) : N := u32 (ts + 4294967296 - u32 (ve_genesis_ts e)) / ve_block_time e.
+
+Definition sub32 (a b : N) : N := u32 (a + 4294967296 - u32 b).
+
+(* Executer.verifyAggregateCommit, ordered as the code *)
+Definition agg_commit_ok (h : header) (e : venv) : bool :=
+  let bits0 := b_len (h_agg_bits h) =? 0 in
+  let sig0 := b_len (h_agg_sig h) =? 0 in
+  if bits0 && sig0 && (h_agg_height h =? ve_mh_cert e) then true
+  else if bits0 || sig0 then false
+  else if h_agg_height h <=? ve_mh_cert e then false
+  else if ve_mh_precommit e <? h_agg_height h then false
+  else if (match ve_next_params e with Some np => sub32 np 1 <? h_agg_height h | None => false end) then false
+  else ve_agg_lookup_ok e && ve_agg_bls_ok e.
 
 Definition payload_size (b : block) : N := fold_right (fun t acc => tx_size t + acc) 0 (b_txs b).
 
@@ -100,7 +118,7 @@ Definition verify_block (tip : header) (b : block) (e : venv) : option rule :=
            if negb (beq g (h_gen h)) then Some RGenerator
            else if negb (h_mhp h =? ve_node_mhp e) then Some RMhp
            else if ve_contradicting e then Some RContradiction
-           else if negb (ve_agg_ok e) then Some RAggCommit
+           else if negb (agg_commit_ok h e) then Some RAggCommit
            else if negb (ve_sig_ok e) then Some RSignature
            else None
          end
